@@ -578,17 +578,23 @@ static double parse_double_from_buffer(const char* start, const char* end) {
     /* Fall back to strtod() for edge cases */
 #ifdef EDN_ENABLE_EXPERIMENTAL_EXTENSION
     /* For strtod fallback with underscores, we need to create a cleaned buffer */
-    char buffer[512];
+    char stack_buffer[512];
+    char* buffer = stack_buffer;
     size_t buf_idx = 0;
 
-    for (const char* p = start; p < end && buf_idx < sizeof(buffer) - 1; p++) {
-        if (*p != '_') {
-            buffer[buf_idx++] = *p;
+    /* Literals that do not fit the stack buffer are converted from a heap copy
+     * (they must not be truncated: the exponent is at the end) */
+    if ((size_t) (end - start) >= sizeof(stack_buffer)) {
+        buffer = malloc((size_t) (end - start) + 1);
+        if (!buffer) {
+            return NAN;
         }
     }
 
-    if (buf_idx >= sizeof(buffer)) {
-        return NAN;
+    for (const char* p = start; p < end; p++) {
+        if (*p != '_') {
+            buffer[buf_idx++] = *p;
+        }
     }
 
     buffer[buf_idx] = '\0';
@@ -597,18 +603,23 @@ static double parse_double_from_buffer(const char* start, const char* end) {
     char* endptr;
     result = strtod(buffer, &endptr);
 
-    if (errno == ERANGE) {
-        return result; /* Infinity or underflow to zero */
+    if (buffer != stack_buffer) {
+        free(buffer);
     }
 
-    return result;
+    return result; /* on ERANGE: infinity or underflow to zero */
 #else
     /* No underscores, can use buffer directly */
     size_t len = end - start;
-    char buffer[512];
+    char stack_buffer[512];
+    char* buffer = stack_buffer;
 
-    if (len >= sizeof(buffer)) {
-        return NAN;
+    /* Literals that do not fit the stack buffer are converted from a heap copy */
+    if (len >= sizeof(stack_buffer)) {
+        buffer = malloc(len + 1);
+        if (!buffer) {
+            return NAN;
+        }
     }
 
     memcpy(buffer, start, len);
@@ -618,11 +629,11 @@ static double parse_double_from_buffer(const char* start, const char* end) {
     char* endptr;
     result = strtod(buffer, &endptr);
 
-    if (errno == ERANGE) {
-        return result; /* Infinity or underflow to zero */
+    if (buffer != stack_buffer) {
+        free(buffer);
     }
 
-    return result;
+    return result; /* on ERANGE: infinity or underflow to zero */
 #endif
 }
 
